@@ -183,6 +183,112 @@ func genLocks() (string, string) {
 		rows = append(rows, fmt.Sprintf("  (%s, ⟨%s, [%s]⟩, %v)", leanStr(n), in.mode, strings.Join(as, ", "), in.deferred))
 	}
 	b.WriteString(strings.Join(rows, ",\n") + "\n]\n")
+	// Signers hands objects to its caller that sign later, outside the method and its lock: every
+	// value appended to the returned slice, and whether it reaches the underlying agent only through
+	// the shim (its agent field is the receiver) or holds the connection / the agent client itself.
+	b.WriteString("\n/-- the values `Signers` returns: source text, and whether the signer is routed through the shim\n    (`true`) or uses the agent client / connection directly, outside the shim's lock (`false`) -/\n")
+	var srcs []string
+	if in, ok := infos["Signers"]; ok {
+		fd := in.fd
+		recv := fd.Recv.List[0].Names[0].Name
+		ret := ""
+		if n := len(fd.Body.List); n > 0 {
+			if rs, ok := fd.Body.List[n-1].(*ast.ReturnStmt); ok && len(rs.Results) > 0 {
+				ret = f.src(rs.Results[0])
+			}
+		}
+		// variables that hold objects obtained from the agent client
+		fromClient := map[string]bool{}
+		usesConn := func(e ast.Expr) bool {
+			found := false
+			ast.Inspect(e, func(n ast.Node) bool {
+				// a public key read off a client object is plain data
+				if c, ok := n.(*ast.CallExpr); ok {
+					if se, ok := c.Fun.(*ast.SelectorExpr); ok && se.Sel.Name == "PublicKey" {
+						return false
+					}
+				}
+				if se, ok := n.(*ast.SelectorExpr); ok {
+					if id, ok := se.X.(*ast.Ident); ok && id.Name == recv && cellOf[se.Sel.Name] == 3 {
+						if _, isCell := cellOf[se.Sel.Name]; isCell {
+							found = true
+						}
+					}
+				}
+				if id, ok := n.(*ast.Ident); ok && fromClient[id.Name] {
+					found = true
+				}
+				return true
+			})
+			return found
+		}
+		ast.Inspect(fd.Body, func(n ast.Node) bool {
+			switch x := n.(type) {
+			case *ast.AssignStmt:
+				for i, r := range x.Rhs {
+					if usesConn(r) && i < len(x.Lhs) {
+						if id, ok := x.Lhs[i].(*ast.Ident); ok && id.Name != "_" && id.Name != "err" {
+							fromClient[id.Name] = true
+						}
+					}
+				}
+			case *ast.RangeStmt:
+				if usesConn(x.X) && x.Value != nil {
+					if id, ok := x.Value.(*ast.Ident); ok {
+						fromClient[id.Name] = true
+					}
+				}
+			}
+			return true
+		})
+		ast.Inspect(fd.Body, func(n ast.Node) bool {
+			call, ok := n.(*ast.CallExpr)
+			if !ok || f.src(call.Fun) != "append" || len(call.Args) < 2 || f.src(call.Args[0]) != ret {
+				return true
+			}
+			for _, a := range call.Args[1:] {
+				// a composite literal that wraps a client object still signs through its agent field:
+				// routed iff nothing in it is the connection / client or an object obtained from it,
+				// except as the argument of a method that only reads (PublicKey)
+				routed := true
+				var litTypes []ast.Expr
+				ast.Inspect(a, func(m ast.Node) bool {
+					if cl, ok := m.(*ast.CompositeLit); ok && cl.Type != nil {
+						litTypes = append(litTypes, cl.Type)
+					}
+					return true
+				})
+				ast.Inspect(a, func(m ast.Node) bool {
+					for _, lt := range litTypes {
+						if m == lt {
+							return false
+						}
+					}
+					if c, ok := m.(*ast.CallExpr); ok {
+						if se, ok := c.Fun.(*ast.SelectorExpr); ok && se.Sel.Name == "PublicKey" {
+							return false
+						}
+					}
+					if e, ok := m.(ast.Expr); ok {
+						if se, ok := e.(*ast.SelectorExpr); ok {
+							if id, ok := se.X.(*ast.Ident); ok && id.Name == recv {
+								if c, isCell := cellOf[se.Sel.Name]; isCell && c == 3 {
+									routed = false
+								}
+							}
+						}
+						if id, ok := e.(*ast.Ident); ok && fromClient[id.Name] {
+							routed = false
+						}
+					}
+					return true
+				})
+				srcs = append(srcs, fmt.Sprintf("(%s, %v)", leanStr(norm(f.src(a))), routed))
+			}
+			return true
+		})
+	}
+	b.WriteString("def signerSources : List (Str × Bool) := [" + strings.Join(srcs, ", ") + "]\n")
 	_ = token.NoPos
 	b.WriteString("\nend Ysshra.Gen.Locks\n")
 	return "Locks", b.String()
